@@ -13,6 +13,9 @@ CHECKS = {
  "C17": (True, "fault_enumeration", "fault injection with known token positions: every single-token corruption (insert/replace by a character that starts no ASN.1 token, delete, replace) of grammar-generated inputs; the reported offset/line/src_file and the three renderings (Display, contextualize, ReportData) are compared with positions known by construction",
          "For every corrupted input that the real compiler rejects with a syntax error: offset within input and on a char boundary, line = 1 + line breaks before offset, offset not before the end of the preceding definition and not after the offending character (exact upper bound for garbage-character faults), Display line = contextualize marked line = contextualize header line = ReportData.line, src_file = the path iff given as file. Exhaustive over token positions for inputs within the per-input budget, sampled otherwise.",
          "Trusted: own layout engine (token byte spans), fixed patterns for the message shapes. A blank/absent error line cannot carry the contextualize marker (it omits blank lines by design) and is not judged.", "DESIGN.md §4 C17"),
+ "C13": (True, "exploration", "metamorphic monitor: two executions of the real compiler on a text and on its re-layout at one token boundary (13 white-space / comment forms); token boundaries from the harness's own X.680 tokenizer; outcome digests (status, warning count, doc-free token-normalised bindings) must be equal",
+         "Held on the re-layouts executed: every token boundary of small grammar-generated inputs (exhaustive per input) and sampled boundaries of real-world modules, each with tab/LF/CRLF/blank runs/no separator (only where the tokens stay separable)/line comment (LF and CRLF)/inline comment/block comment (spaced, tight, nested, multi-line)/comments with quotes, braces, keywords and non-ASCII text.",
+         "Trusted: harness tokenizer tok.rs (every transformed text is re-tokenised and must give the same token sequence, else the transformation is discarded); a sign directly before digits is kept with the number. Real-world files are used only if their single-space re-join reproduces the original outcome.", "DESIGN.md §4 C13"),
  "C14": (True, "fault_enumeration", "reference-model monitor (X.680 §20 numbering) over the syn projection of real compiler output; exhaustive enumeration of the property's finite space + seeded random",
          "Every enumeration of the property's finite space (<=5 root x <=3 additions over {-1,0,1,2,5,identifier-only}) is compiled by the real compiler and every emitted discriminant is compared with the X.680 20.3-20.6 number; larger random enumerations are sampled. Exhaustive for the stated space, sampled beyond it.",
          "Trusted: the 40-line numbering model in harness/src/c14.rs, syn's parsing of discriminants. Illegal inputs (duplicate numbers, non-ascending additions) are not claims.", "DESIGN.md §4 C14"),
